@@ -2,6 +2,7 @@ import Cellml.Engine.Num
 import Cellml.Engine.Logger
 import Cellml.Engine.Equiv
 import Cellml.Engine.Units
+import Cellml.Engine.Equals
 open Cellml
 
 /-- line-protocol loop: one answer per input line -/
@@ -32,6 +33,7 @@ def main (args : List String) : IO UInt32 := do
   match args with
   | ["numpos"] => loop stdin stdout Engine.Num.posAnswer; return 0
   | ["num"] => loop stdin stdout numLine; return 0
+  | ["equals"] => loop stdin stdout Engine.Equals.answer; return 0
   | ["units"] => loop stdin stdout Engine.Units.answer; return 0
   | ["equiv"] => loop stdin stdout Engine.Equiv.answer; return 0
   | ["logger"] => loopS stdin stdout Engine.Logger.stepLine ([] : Engine.Logger.Loggers); return 0
